@@ -79,6 +79,16 @@ func scenarioHistory(name string, w *World) *History {
 			txPropFund(u0, "gen1", oltAmt("9000000000"), s.memo()),
 			txDomainCreate(u0, "before.ol", oltAmt("1002000000000000000000"), s.memo()),
 		}, "prop fund", "prop fund", "prop fund", "domain create")
+		// refused governance transactions in a row, first in their block: funding an unknown proposal, then the id of
+		// an ACTIVE proposal created again by somebody else (each must be refused whatever precedes it)
+		s.block([][]byte{
+			txPropFund(u2, "nosuchprop", oltAmt("1000"), s.memo()),
+			txPropCreate(u1, "gen1", governance.ProposalTypeGeneral, oltAmt("1000000000"), 12, 0, s.memo()),
+		}, "prop fund unknown", "prop create duplicate-id")
+		s.block([][]byte{
+			txPropVote(w.Vals[0], "nosuchprop", governance.OPIN_POSITIVE, s.memo()),
+			txPropCreateCfg(u2, "cfgfee", "feeOption.minFeeDecimal:7", oltAmt("1000000000"), 12, s.memo()),
+		}, "prop vote unknown", "prop create duplicate-id")
 		// block 3: all validators vote yes on the config updates, no on the general one
 		txs := [][]byte{}
 		for _, v := range w.Vals {
